@@ -70,7 +70,7 @@ def main():
         "shown the summaries of all earlier rounds for their property and asked for different, harder defects; from the fourth round on they were also told to stay inside D and make the " \
         "*trigger* rare (values, call sequences, option interactions, ordering) rather than the descriptor exotic. 199 changes in all; the one not caught (`R3-C11-1`) only alters " \
         "output for descriptors outside D. Where a change was first missed, the column shows the state after the generator or oracle was extended (12.2 lists those extensions).\n\n" \
-        + seeded_table() + "\n\n" + tail.replace("{BUDGETS}", budgets_table())
+        + seeded_table() + "\n\n" + tail.replace("{BUDGETS}", budgets_table()).replace("{FINAL}", open(os.path.join(ROOT, "tools", "design12_final.md")).read().strip())
     p = os.path.join(ROOT, "DESIGN.md")
     s = open(p).read()
     marker = "\n## 12. As built\n"
